@@ -34,9 +34,9 @@ cfg("MC_C04.cfg", N2, [1], 14, 17, 1, "Limit_Links", ["create", "link", "delete"
 cfg("MC_C05_quick.cfg", N2, [1, 2], 14, 16, 1, "Limit_Links", ["create", "link", "attr", "data"], ["WrongKind", "ForeignBlock"], "Script_Links")
 cfg("MC_C05.cfg", N2, [1, 2], 14, 17, 1, "Limit_Links", ["create", "link", "attr", "data"], ["WrongKind", "ForeignBlock"], "Script_Links")
 # C12: every fault class at every state
-cfg("MC_C12_quick.cfg", N2, [1], 14, 15, 1, "Limit_Sim", ["create", "createfault", "attr", "link", "delete"], ALLF, "Script_Links")
-cfg("MC_C12.cfg", N2, [1], 15, 16, 1, "Limit_Sim", ["create", "createfault", "attr", "link", "delete"], ALLF, "Script_Links")
-cfg("MC_C12_free.cfg", N2, [1], 4, 4, 1, "Limit_C04", ["create", "createfault", "attr", "link", "delete"], ALLF, "NoScript")
+cfg("MC_C12_quick.cfg", N2, [1], 14, 15, 1, "Limit_Sim", ["create", "mtagauto", "createfault", "attr", "link", "delete"], ALLF, "Script_Links")
+cfg("MC_C12.cfg", N2, [1], 15, 16, 1, "Limit_Sim", ["create", "mtagauto", "createfault", "attr", "link", "delete"], ALLF, "Script_Links")
+cfg("MC_C12_free.cfg", N2, [1], 4, 4, 1, "Limit_C04", ["create", "mtagauto", "createfault", "attr", "link", "delete"], ALLF, "NoScript")
 # C02: everything that writes, small universe, reopen at every state
 cfg("MC_C02_quick.cfg", N2, [1, 2], 4, 4, 1, "Limit_C04", ["create", "attr", "data", "link", "delete"], [], "NoScript")
 cfg("MC_C02.cfg", N2, [1, 2], 5, 5, 1, "Limit_C04", ["create", "attr", "data", "link", "delete"], [], "NoScript")
@@ -45,6 +45,10 @@ cfg("MC_C02_links.cfg", N2, [1, 2], 14, 16, 1, "Limit_Links", ["create", "attr",
 cfg("MC_C19_quick.cfg", ["n1"], [1, 2], 2, 4, 2, "Limit_C19", ["create", "attr", "time"], ["NoneType"], "NoScript")
 cfg("MC_C19.cfg", ["n1"], [1, 2], 3, 5, 3, "Limit_C19", ["create", "attr", "time", "link"], ["NoneType"], "NoScript")
 cfg("MC_C19_links.cfg", N2, [1, 2], 14, 16, 2, "Limit_Links", ["create", "attr", "time", "link"], [], "Script_Links")
+# C13: trees of sections and sources with repeated names; searches exported as observables
+cfg("MC_C13_quick.cfg", N2, [1], 5, 5, 1, "Limit_C13", ["create", "delete", "obs"], [], "NoScript", inv=INV + ["SearchSound", "SearchMonotone"])
+cfg("MC_C13.cfg", N2, [1], 6, 6, 1, "Limit_C13", ["create", "delete", "obs"], [], "NoScript", inv=INV + ["SearchSound", "SearchMonotone"])
+cfg("MC_C13_links.cfg", N2, [1], 14, 16, 1, "Limit_Links", ["create", "link", "delete", "obs"], [], "Script_Links", inv=INV + ["SearchSound"])
 # simulation: larger universe, everything enabled
 cfg("MC_Sim.cfg", ["n1", "n2", "n3"], [1, 2], 16, 30, 4, "Limit_Sim", ["create", "createfault", "attr", "data", "time", "link", "delete"], ALLF, "NoScript", inv=[], props=[])
 print("ok")
